@@ -19,28 +19,28 @@ def gen_cases(rnd, tier):
     full = tier == "thorough"
     cases = []
     # sessions: one geometry / one signal object, several nearby DMs, DM object stepped in place
-    for i in range(45 * k):
+    for i in range(40 * k):
         cases.append(D.gen_chirpseq_case(rnd))
-    for i in range(25 * k):
+    for i in range(18 * k):
         cases.append(D.gen_toneseq_case(rnd, NS[1:]))
     for i in range(120 * k):
         c = D.gen_chirpfn_case(rnd, full and i % 4 == 0)
         if i % 100 == 0:
             c["xcheck"] = rnd.choice(c["bins"])
         cases.append(c)
-    for i in range(80 * k):
+    for i in range(65 * k):
         c = D.gen_bb_case(rnd, "chirpsig", NS, decades=True)
         c["bins"] = D.pick_bins(rnd, c["N"], full and i % 4 == 0)
         if i % 40 == 0:
             c["xcheck"] = rnd.choice(c["bins"])
         cases.append(c)
-    for i in range(60 * k):
+    for i in range(50 * k):
         c = D.gen_bb_case(rnd, "tone", NS[1:])
         c["supplied"] = i % 3 == 0
         cases.append(c)
     for i in range(30 * k):      # tones under DMs over all decades (mostly everything cropped or nothing)
         cases.append(D.gen_bb_case(rnd, "tone", NS[1:], decades=True))
-    for i in range(90 * k):
+    for i in range(80 * k):
         c = D.gen_bb_case(rnd, "cohdd", [1, 2, 3, 4, 5, 6, 7, 8, 8], nchans=(1, 1, 2, 3))
         c["supplied"] = i % 3 == 0
         c["xcheck"] = i % 60 == 0
@@ -73,8 +73,8 @@ def run(chk):
     chk.notes["supplied_chirp_bitwise_identical"] = "%d of %d" % (sum(1 for e in sup if e["_bitwise"]), len(sup))
     beh = [e for e in events if e["ev"] in ("cohdd", "tone", "crop", "roundtrip")]
     cases = [c.get("base", c) for c in cases]
-    chk.notes["sessions"] = {"chirp_one_geometry": 45 * (5 if chk.tier == "thorough" else 1),
-                             "tones_one_signal_object": 25 * (5 if chk.tier == "thorough" else 1)}
+    chk.notes["sessions"] = {"chirp_one_geometry": 40 * (5 if chk.tier == "thorough" else 1),
+                             "tones_one_signal_object": 18 * (5 if chk.tier == "thorough" else 1)}
     chk.notes["coherent_calls"] = {
         "numpy": sum(1 for e in beh if not cases[e["_case"]].get("dask")),
         "dask": sum(1 for e in beh if cases[e["_case"]].get("dask")),
